@@ -129,7 +129,19 @@ def main():
                     reports.append(api.assemble(r, results, [c.result() for c in cf_]))
             obligations, functions, crash = [], [], None
             canaries = canaries_ok = 0
+            by_fn = {f"{sp.file}:{sp.qual}": sp for sp in built["verify"]}
             for r in reports:
+                sp = by_fn.get(r["fn"])
+                for o in r["obligations"]:
+                    # a refuted obligation of a value-level function: the spec may turn the counter-model into a call of the real function
+                    if o.get("verdict") == "failed" and o.get("scalars") and sp is not None and hasattr(sp, "native_plan"):
+                        try:
+                            plan = sp.native_plan(o["scalars"], o)
+                        except Exception as e:  # noqa
+                            plan = None
+                            o["native_plan_error"] = repr(e)
+                        if plan:
+                            o["native_plan"] = plan
                 obligations += r["obligations"]
                 if r["status"] == "crash":
                     crash = (crash or "") + f"\n{r['fn']}: {r.get('detail','')}"
@@ -164,6 +176,8 @@ def main():
             print(f"  [{o['verdict']:>11}] {o['name']}  ({o.get('backend')}, {o.get('secs')}s, q={o.get('queries')}) L{o.get('line')}")
             if o["verdict"] in ("failed",):
                 print(f"       goal: {o.get('goal_txt')}\n       model: {str(o.get('model'))[:600]}")
+                if o.get("native_plan"):
+                    print(f"       replay on the real function: {json.dumps(o['native_plan'])[:400]}")
             if o["verdict"] in ("unsupported", "stale", "undecided"):
                 print(f"       detail: {o.get('detail')}")
         if out.get("crash"):
